@@ -62,6 +62,9 @@ pub struct Policy {
     /// 2 = `elsewhere` (an explicit address), 3 = pass the hint to the kernel unchanged
     pub occupied: u8,
     pub elsewhere: u64,
+    /// how many occupied hints get the `occupied` answer before the policy falls back to
+    /// plain failure (0 = unlimited); keeps exhaustion runs short
+    pub occ_budget: usize,
     /// library mmap number k (1-based) and later fail (0 = never)
     pub mmap_fail_from: usize,
     /// library mprotect number k (1-based) fails (0 = never)
@@ -70,6 +73,7 @@ pub struct Policy {
 
 pub static POLICY: Mutex<Option<Policy>> = Mutex::new(None);
 pub static N_MMAP: AtomicUsize = AtomicUsize::new(0);
+pub static OCC_USED: AtomicUsize = AtomicUsize::new(0);
 pub static N_MUNMAP: AtomicUsize = AtomicUsize::new(0);
 pub static N_MPROTECT: AtomicUsize = AtomicUsize::new(0);
 pub static N_FLUSH: AtomicUsize = AtomicUsize::new(0);
@@ -91,6 +95,7 @@ pub fn set_policy(p: Option<Policy>) {
         // policies count library calls from the moment they are installed
         N_MMAP.store(0, SeqCst);
         N_MPROTECT.store(0, SeqCst);
+        OCC_USED.store(0, SeqCst);
     }
 }
 
@@ -168,7 +173,10 @@ pub unsafe extern "C" fn mmap(addr: *mut c_void, len: size_t, prot: c_int, flags
                 how = "free";
                 raw_mmap(hint & !0xfff, len, prot, flags | libc::MAP_FIXED_NOREPLACE, fd, off)
             } else {
-                match p.occupied {
+                let over = p.occ_budget != 0 && OCC_USED.fetch_add(1, SeqCst) >= p.occ_budget;
+                // page 0 is never handed out by a kernel
+                let mode = if over || (p.occupied == 2 && p.elsewhere < 4096) { 0 } else { p.occupied };
+                match mode {
                     0 => {
                         how = "occ-fail";
                         (-(libc::ENOMEM as i64)) as u64
